@@ -14,7 +14,8 @@ import (
 // expiries and the (separately scheduled) timer callbacks are placed at every
 // scheduling point within the deviation bound.
 
-var c09sets = []string{"zero", "past", "+5ms", "+10ms", "+20ms", "+400y"}
+// "+3ns": so near that the clock (1 ns per reading) is past it before the runtime has dispatched the expiry
+var c09sets = []string{"zero", "past", "+5ms", "+10ms", "+20ms", "+400y", "+3ns"}
 
 func c09scenario(steps, bound int, gaps bool, yieldOnRelease ...bool) *explore.Scenario {
 	name := fmt.Sprintf("deadline %d sets", steps)
@@ -142,7 +143,7 @@ func init() {
 			// bound -1 = unbounded: the happens-before state cache closes the whole interleaving space
 			return []*explore.Scenario{c09scenario(4, 2, false), c09scenario(3, -1, false), c09scenario(3, 2, true), c09scenario(2, -1, true), c09scenario(2, 3, true, true), c09scenario(3, 2, false, true)}
 		},
-		Rule: "all scripts of Set(zero|past|+5ms|+10ms|+20ms) of the stated length (optionally separated by 0/7/12 ms sleeps) x every placement, within the deviation bound, of timer expiries and of the separately scheduled timer callbacks (so up to 3 dispatched-but-not-run callbacks are outstanding); Done/Err/Deadline observed after every Set, before the next one, 1 ms after the last one and at quiescence 100 ms later; one family additionally has a scheduling point after every unlock",
+		Rule: "all scripts of Set(zero|past|+5ms|+10ms|+20ms|+400 years|+3ns) of the stated length (optionally separated by 0/7/12 ms sleeps) x every placement, within the deviation bound, of timer expiries and of the separately scheduled timer callbacks (so up to 3 dispatched-but-not-run callbacks are outstanding); Done/Err/Deadline observed after every Set, before the next one, 1 ms after the last one and at quiescence 100 ms later; one family additionally has a scheduling point after every unlock",
 		Assumptions: []string{"the runtime timer is modelled: expiry dispatches the callback as a new thread whose first lock acquisition is a scheduling point; Stop reports whether the expiry had not been dispatched yet",
 			"signalled-ness is judged strictly (never before the latest Set's time); being signalled is required only at quiescence"}})
 }
